@@ -5,6 +5,21 @@ stack on the virtual loop against the ESC model; the explorer decides at
 every AL-status poll whether the pending transition stays, is reached, or
 fails.  The observed AL control writes and AL status reads are judged by a
 reference automaton written from the property statement.
+
+Two families:
+
+single  one to_operational call on a fresh Terminal object (start state x
+        error flag x target x every terminal behaviour); judged by the
+        sequential reference automaton `judge`.
+shared  two and three users of ONE Terminal object at the same time (a
+        terminal shared by several sync groups, a tool that wants PRE-OP
+        while a sync group goes to OP): every user is a to_operational
+        call with its own target or a plain get_state; the later users
+        start together with the first one or after d frames of it.  Judged
+        by `judge_shared`: per user (its call ends only after a status
+        read inside its life time reported what the statement demands for
+        ITS target) and for the terminal as a whole (the AL control writes
+        of all walkers together still walk the machine in order).
 """
 import asyncio
 import itertools
@@ -15,13 +30,43 @@ from ebpfcat.ethercat import EtherCat, EtherCatError, MachineState, Terminal
 
 PROP = "C14"
 LEVEL = "model_checking"
-RULE = ("start state x error flag x target x every terminal behaviour (per "
-        "poll: stay / reach / error; latency <= k polls per transition; at "
-        "most one injected error); non-trivial = at least one AL control "
-        "write happened; distinct = distinct (configuration, behaviour)")
+RULE = ("single: start state x error flag x target x every terminal "
+        "behaviour (per poll: stay / reach / error; latency <= k polls per "
+        "transition; at most one injected error).  shared: the same start "
+        "states and terminal behaviours with two and three concurrent users "
+        "of ONE Terminal object, each user in {to_operational(PRE-OP), "
+        "(SAFE-OP), (OP), get_state}, every combination, later users started "
+        "together with the first or after d frames of it (every d up to the "
+        "bound).  non-trivial = at least one AL control write happened; "
+        "distinct = distinct (configuration, behaviour)")
 
 STATES = [1, 2, 4, 8]
 TARGETS = [2, 4, 8]
+USERS = [2, 4, 8, 0]        # shared family: a target, or 0 = get_state user
+NEXT = {1: 2, 2: 4, 4: 8, 8: 8}
+INITIAL_CODE = 0x1b         # AL status code of an error present at the start
+KF_HANG = "C14-shared-walker-waits-for-exact-state"
+
+
+def make_poll(ch, k, max_errors):
+    stays = [0]
+    injected = [0]
+
+    def poll(term):
+        opts = ["reach"]
+        if stays[0] < k:
+            opts.append("stay")
+        if injected[0] < max_errors:
+            opts.append("error")
+        a = opts[ch.choose(len(opts), "poll")]
+        if a == "stay":
+            stays[0] += 1
+        else:
+            stays[0] = 0
+        if a == "error":
+            injected[0] += 1
+        return a
+    return poll
 
 
 def execute(ch, conf, k, max_errors=1):
@@ -31,24 +76,7 @@ def execute(ch, conf, k, max_errors=1):
         t = bussim.Terminal("t", station=1234)
         t.al_state = start
         t.al_error = err
-        stays = [0]
-        injected = [0]
-
-        def poll(term):
-            opts = ["reach"]
-            if stays[0] < k:
-                opts.append("stay")
-            if injected[0] < max_errors:
-                opts.append("error")
-            a = opts[ch.choose(len(opts), "poll")]
-            if a == "stay":
-                stays[0] += 1
-            else:
-                stays[0] = 0
-            if a == "error":
-                injected[0] += 1
-            return a
-        t.al_poll = poll
+        t.al_poll = make_poll(ch, k, max_errors)
         bus = bussim.Bus([t])
         m = bussim.Master(bus, lambda: EtherCat("sim"), loop)
         term = Terminal(m.ec)
@@ -124,8 +152,306 @@ def judge(conf, obs):
     return None
 
 
-def work(conf, res):
+# ---------------------------------------------------------------- shared
+def frame_bound(users, k):
+    """more frames than all walks one after the other could ever need"""
+    return max(d for _, d in users) + len(users) * (2 + 3 * (k + 2)) + 8
+
+
+def execute_shared(ch, conf, k, max_errors=1, serialise=False):
+    """users = ((target or 0, delay), ...): user i starts once `delay`
+    frames went round (or nothing is in flight any more); delay 0 = together
+    with the first.  serialise=True is the defect model of KF_HANG: the
+    walks are put one after the other by a lock the harness holds."""
+    start, err, users = conf
+    loop = vloop.VLoop()
+    with loop:
+        t = bussim.Terminal("t", station=1234)
+        t.al_state = start
+        t.al_error = err
+        t.al_code = INITIAL_CODE if err else 0
+        t.al_poll = make_poll(ch, k, max_errors)
+        bus = bussim.Bus([t])
+        m = bussim.Master(bus, lambda: EtherCat("sim"), loop)
+        term = Terminal(m.ec)
+        term.position = 1234
+        n = len(users)
+        futs = [None] * n
+        marks = [None] * n
+        ends = [None] * n
+        ops = [[] for _ in range(n)]
+        who = {}
+        lock = asyncio.Lock()
+
+        # observation only (feeds the defect model, not the oracle): which
+        # user's task issued which AL access
+        real = m.ec.roundtrip
+
+        async def roundtrip(cmd, pos, offset, *args, **kwargs):
+            ret = await real(cmd, pos, offset, *args, **kwargs)
+            i = who.get(asyncio.current_task())
+            if i is not None:
+                if offset == 0x0120:
+                    ops[i].append(("ctl", args[-1]))
+                elif offset == 0x0130:
+                    ops[i].append(("status", ret[0]))
+            return ret
+        m.ec.roundtrip = roundtrip
+
+        async def locked(target):
+            async with lock:
+                return await term.to_operational(MachineState(target))
+
+        def done(i):
+            def cb(fut):
+                ends[i] = len(t.al_log)
+            return cb
+
+        def start_due(m_=None):
+            did = False
+            for i, (target, delay) in enumerate(users):
+                if futs[i] is None and (m.frames >= delay
+                                        or not m.transport.inflight):
+                    marks[i] = len(t.al_log)
+                    if not target:
+                        co = term.get_state()
+                    elif serialise:
+                        co = locked(target)
+                    else:
+                        co = term.to_operational(MachineState(target))
+                    futs[i] = asyncio.ensure_future(co)
+                    who[futs[i]] = i
+                    futs[i].add_done_callback(done(i))
+                    did = True
+            return did
+
+        class All:
+            @staticmethod
+            def done():
+                return all(f is not None and f.done() for f in futs)
+        start_due()
+        m.run(All, max_frames=frame_bound(users, k), on_idle=start_due)
+        out = []
+        for i, f in enumerate(futs):
+            if f is None:
+                raise core.Internal("user %d was never started" % i)
+            if not f.done():
+                o = dict(out=("pending",), result=None)
+            elif f.exception() is not None:
+                o = dict(out=("raise", type(f.exception()).__name__),
+                         result=None)
+            else:
+                r = f.result()
+                o = dict(out=("return",),
+                         result=None if r is None
+                         else [r[0].value, bool(r[1]), r[2]])
+            if ends[i] is None:
+                ends[i] = len(t.al_log)
+            o.update(mark=marks[i], end=ends[i], ops=ops[i])
+            out.append(o)
+        log = list(t.al_log)
+        pending = t.al_requested
+        loop.shutdown()
+    return dict(log=log, users=out, requested=pending)
+
+
+def status_codes(conf, log):
+    """AL status code the model shows along with every status entry"""
+    start, err, users = conf
+    code = INITIAL_CODE if err else 0
+    flag = err
+    out = {}
+    for i, (kind, v) in enumerate(log):
+        if kind == "ctl":
+            if v & 0x10:
+                code, flag = 0, False
+        else:
+            if v & 0x10 and not flag:
+                code, flag = 0x11, True
+            out[i] = code if v & 0x10 else 0
+    return out
+
+
+def judge_shared(conf, obs):
+    """-> list of (user or None, expected, observed, what)"""
+    start, err, users = conf
+    log = obs["log"]
+    bad = []
+    # ---- the terminal as a whole
+    hi = None           # highest state reported since the last acknowledge
+    errs = acks = 0
+    for i, (kind, v) in enumerate(log):
+        if kind == "status":
+            s = v & 0xf
+            hi = s if hi is None else max(hi, s)
+            if v & 0x10:
+                errs += 1
+            continue
+        if hi is None:
+            bad.append((None, "first action: AL status read", (kind, v),
+                        "AL control write before any AL status read"))
+            break
+        if v == 0x11:
+            acks += 1
+            if acks > errs:
+                bad.append((None, "acknowledge only a reported error",
+                            [i, (kind, v)],
+                            "acknowledge without a reported error"))
+                break
+            hi = 1
+            continue
+        if v not in (2, 4, 8):
+            bad.append((None, "request PRE-OP, SAFE-OP or OP", [i, (kind, v)],
+                        "wrong request (not a state of the walk)"))
+            break
+        if err and not acks:
+            bad.append((None, ("ctl", 0x11), [i, (kind, v)],
+                        "reported error not acknowledged with INIT|ack "
+                        "first"))
+            break
+        if v > NEXT[hi]:
+            bad.append((None, "at most %d (one step above the highest state "
+                        "reported since the last acknowledge)" % NEXT[hi],
+                        [i, (kind, v)], "wrong request (a state is skipped / "
+                        "requested before the previous one was reported)"))
+            break
+        top = max([tg for (tg, d), u in zip(users, obs["users"])
+                   if u["mark"] <= i] or [0])
+        if v > top:
+            bad.append((None, "no request above the highest target asked "
+                        "for so far (%d)" % top, [i, (kind, v)],
+                        "request above the target"))
+            break
+    # ---- every user
+    codes = status_codes(conf, log)
+    for no, ((target, delay), u) in enumerate(zip(users, obs["users"])):
+        win = range(u["mark"], u["end"])
+        ack = max([i for i in win if log[i] == ("ctl", 0x11)] or [-1])
+        reads = [(i, log[i][1]) for i in win if log[i][0] == "status"]
+        reached = [i for i, v in reads
+                   if target and i > ack and not v & 0x10
+                   and v & 0xf >= target]
+        errors = [i for i, v in reads if v & 0x10]
+        out = u["out"]
+        if out[0] == "raise":
+            if not target or out[1] != "EtherCatError":
+                bad.append((no, "no exception other than EtherCatError",
+                            out, "unexpected exception"))
+            elif not errors:
+                bad.append((no, "raise only after a status read with the "
+                            "error flag", out, "EtherCatError without a "
+                            "reported error"))
+        elif out[0] == "return":
+            seen = [[v & 0xf, bool(v & 0x10), codes[i]] for i, v in reads]
+            if u["result"] is not None and u["result"] not in seen:
+                bad.append((no, "one of the status reads of its life time: "
+                            "%r" % seen, u["result"],
+                            "returned state/error/code was never reported"))
+            elif not target and u["result"] is None:
+                bad.append((no, "state, error flag, code", None,
+                            "get_state returned nothing"))
+            if target and not reached:
+                bad.append((no, "a status read reporting a state >= %d "
+                            "without error (after the last acknowledge) "
+                            "before the call returns" % target,
+                            [v for i, v in reads],
+                            "returned before the terminal reported a state "
+                            "at or above the caller's target"))
+        elif out[0] == "pending":
+            tail = [v for i, v in reads][-3:]
+            if not target:
+                bad.append((no, ("return",), out, "get_state does not end"))
+            elif errors and errors[-1] > ack:
+                bad.append((no, ("raise", "EtherCatError"), out,
+                            "error reported while changing state, but no "
+                            "EtherCatError raised"))
+            elif reached and obs["requested"] is None \
+                    and all(not v & 0x10 and v & 0xf >= target for v in tail):
+                bad.append((no, ("return",), out, "does not terminate "
+                            "although the terminal keeps reporting a state "
+                            "at or above the caller's target"))
+    return bad
+
+
+def hang_model(obs, no):
+    """defect model of KF_HANG, on the accesses of the pending user itself:
+    its last request was s, the terminal never showed exactly s to it
+    afterwards but showed a higher state without error, and another walker
+    wrote to AL control while this one was under way"""
+    ops = obs["users"][no]["ops"]
+    w = [i for i, (kind, v) in enumerate(ops) if kind == "ctl"]
+    if not w or ops[w[-1]][1] not in (2, 4):
+        return False
+    s = ops[w[-1]][1]
+    after = [v for kind, v in ops[w[-1] + 1:]]
+    if not after or any(v & 0x10 or v & 0xf == s for v in after):
+        return False
+    if not any(v & 0xf > s for v in after):
+        return False
+    mine = len(w)
+    u = obs["users"][no]
+    total = len([1 for i in range(u["mark"], len(obs["log"]))
+                 if obs["log"][i][0] == "ctl"])
+    return total > mine
+
+
+def explore_shared(conf, k, errors, res, serialise=False):
+    found = []
+
+    def on_exec(ch, obs):
+        if not serialise:
+            res.count("evaluations")
+            res.count("evaluations_shared")
+            res.count("transitions", len(obs["log"]))
+            if any(e[0] == "ctl" for e in obs["log"]):
+                res.nontrivial.add(core.digest([conf, ch.choices]))
+            res.outcomes.add(tuple(
+                (u["out"], len([1 for e in u["ops"] if e[0] == "ctl"]))
+                for u in obs["users"]))
+            for (target, d), u in zip(conf[2], obs["users"]):
+                if target and u["out"] == ("pending",):
+                    res.count("shared_calls_left_polling")
+        else:
+            res.count("evaluations_defect_model")
+        for no, exp, seen, what in judge_shared(conf, obs):
+            kf = None
+            if not serialise and no is not None \
+                    and what.startswith("does not terminate") \
+                    and hang_model(obs, no):
+                kf = KF_HANG
+            found.append(dict(
+                case=dict(family="shared", conf=[conf[0], conf[1],
+                                                 [list(u) for u in conf[2]]],
+                          choices=list(ch.choices), k=k, errors=errors,
+                          serialise=serialise, user=no, log=obs["log"]),
+                exp=exp, seen=seen, what=what, kf=kf))
+    explore.dfs(lambda ch: execute_shared(ch, conf, k, errors, serialise),
+                99, on_exec)
+    return found
+
+
+def work(item, res):
     k = work.k
+    if item[0] == "shared":
+        conf = item[1]
+        found = explore_shared(conf, k, work.errors, res)
+        if any(f["kf"] for f in found):
+            # the failure must vanish under the one modelled deviation
+            again = explore_shared(conf, k, work.errors, res, serialise=True)
+            if again:
+                for f in found:
+                    f["kf"] = None
+                found += again
+        for f in found:
+            res.violation(f["case"], f["exp"], f["seen"], kf=f["kf"],
+                          sig=core.digest([f["what"], f["kf"]]),
+                          note=f["what"])
+        a = execute_shared(explore.Chooser(()), conf, k)
+        b = execute_shared(explore.Chooser(()), conf, k)
+        if a != b:
+            raise core.Internal("non-deterministic execution")
+        return
+    conf = item[1]
 
     def on_exec(ch, obs):
         res.count("evaluations")
@@ -147,29 +473,91 @@ def work(conf, res):
         raise core.Internal("non-deterministic execution")
 
 
+def shared_items(ctx):
+    """(start, err, ((target, delay), ...)); the first user has delay 0"""
+    d2 = range(0, 7) if ctx.quick else range(0, 13)
+    d3 = (0, 1, 3) if ctx.quick else (0, 1, 2, 3, 5)
+    extra = []
+    if ctx.seed:
+        extra = [7 + ctx.seed % 5] if ctx.quick else [13 + ctx.seed % 5]
+    items = []
+    for s in STATES:
+        for e in (False, True):
+            for a, b in itertools.product(USERS, repeat=2):
+                for d in list(d2) + extra:
+                    items.append(("shared", (s, e, ((a, 0), (b, d)))))
+            for a, b, c in itertools.product(USERS, repeat=3):
+                if not a and not b and not c:
+                    continue
+                for db, dc in itertools.product(d3, repeat=2):
+                    items.append(("shared",
+                                  (s, e, ((a, 0), (b, db), (c, dc)))))
+    return items
+
+
 def run(ctx):
     work.k = 2 if ctx.quick else 5
     work.errors = 1 if ctx.quick else 2
-    items = [(s, e, t) for s in STATES for e in (False, True)
+    items = [("single", (s, e, t)) for s in STATES for e in (False, True)
              for t in TARGETS]
+    items += shared_items(ctx)
     res = core.pmap(ctx, work, items, chunk=1)
     res.cov["states"] = len(res.nontrivial)
     res.cov["traces_validated_against_impl"] = res.cov.get("evaluations", 0)
     res.cov["k"] = work.k
+    res.cov["configurations"] = len(items)
     res.sample(dict(conf=[1, True, 8], behaviour="ack, then PRE-OP after one "
                     "'stay', SAFE-OP at once, error while going to OP"))
+    res.sample(dict(family="shared", conf=[1, False, [[2, 0], [8, 1]]],
+                    behaviour="one Terminal object, to_operational(PRE-OP) "
+                    "and one frame later to_operational(OP)"))
     res.assumptions += [
         "terminal behaviours: a pending transition stays (<= k polls), is "
         "reached, or fails with the error flag; the terminal never reports "
         "a state that was not requested",
         "extra AL status reads are always allowed; only AL control writes "
-        "and the final outcome are constrained"]
+        "and the final outcome are constrained",
+        "shared family: the statement is read per call.  A call may return "
+        "only if a status read between its start and its end, after the "
+        "last acknowledge in between, reported a state at or above ITS "
+        "target without the error flag (whose read it was does not matter); "
+        "it may raise EtherCatError only if such a read had the error flag",
+        "shared family, AL control writes of all walkers together: nothing "
+        "before the first status read; an acknowledge (0x11) at most once "
+        "per status read that showed the error flag, and before any request "
+        "if the terminal starts with an error; a request never above the "
+        "state after the highest one reported since the last acknowledge "
+        "(stale reports after an acknowledge count) and never above the "
+        "highest target of the users started so far.  Repeated requests of "
+        "the same state by several walkers are allowed",
+        "shared family: a call that is still polling at the frame bound is "
+        "a violation only if the terminal keeps reporting a state at or "
+        "above its target without error and nothing is pending ('returns "
+        "once the terminal reported...'); a call left polling because "
+        "another user's request took the terminal away from what it waits "
+        "for and its target was never reported is counted "
+        "(shared_calls_left_polling) but not judged",
+        "frames are delivered in order; the datagrams of several users "
+        "queued at the same time travel in one frame, in queueing order"]
     return res
 
 
 def replay(ctx, rep):
     res = core.Result()
     c = rep["case"]
+    if c.get("family") == "shared":
+        conf = (c["conf"][0], c["conf"][1],
+                tuple(tuple(u) for u in c["conf"][2]))
+        obs = execute_shared(explore.Chooser(tuple(c["choices"])), conf,
+                             c["k"], c.get("errors", 1),
+                             c.get("serialise", False))
+        for i, e in enumerate(obs["log"]):
+            print("  ", i, e)
+        for no, u in enumerate(obs["users"]):
+            print("user", no, conf[2][no], {k: v for k, v in u.items()})
+        for no, exp, seen, what in judge_shared(conf, obs):
+            res.violation(c, exp, seen, note=what)
+        return res.violations
     conf = tuple(c["conf"])
     obs = execute(explore.Chooser(tuple(c["choices"])), conf, c["k"],
                   c.get("errors", 1))
